@@ -77,7 +77,7 @@ func genC15(t *rapid.T) c15Case {
 	}
 	if rapid.IntRange(0, 2).Draw(t, "unknown") == 0 {
 		c.UnknownAt = rapid.IntRange(0, min(c.Depth, 45)).Draw(t, "unknownat")
-		c.UnkShape = rapid.SampledFrom([]string{"struct", "list", "map"}).Draw(t, "unkshape")
+		c.UnkShape = rapid.SampledFrom([]string{"struct", "list", "map", "mapkey", "struct-mapkey", "set"}).Draw(t, "unkshape")
 	}
 	if rapid.Bool().Draw(t, "trail") {
 		c.Trail = rapid.IntRange(1, 16).Draw(t, "ntrail")
@@ -148,6 +148,37 @@ func buildDeep(c c15Case) ([]byte, int) {
 				inner = append(inner, 0x0f, 0, 0, 0, 1)
 			}
 			inner = append(inner, 0x08, 0, 0, 0, 0)
+		case "set":
+			inner = append(inner, 0x0e, 0x03, 0xe7)
+			for i := 1; i < rem; i++ {
+				inner = append(inner, 0x0e, 0, 0, 0, 1)
+			}
+			inner = append(inner, 0x08, 0, 0, 0, 0)
+		case "mapkey":
+			// map<map<map<...,i8>,i8>,i8>: the nesting runs through the KEYS
+			inner = append(inner, 0x0d, 0x03, 0xe7)
+			for i := 1; i < rem; i++ {
+				inner = append(inner, 0x0d, 0x03, 0, 0, 0, 1)
+			}
+			inner = append(inner, 0x03, 0x03, 0, 0, 0, 0)
+			for i := 1; i < rem; i++ {
+				inner = append(inner, 7) // the value byte of each enclosing entry
+			}
+		case "struct-mapkey":
+			// struct{1: map<struct{1: map<struct...,i8>},i8>}: alternating struct and map-by-key
+			inner = append(inner, 0x0c, 0x03, 0xe7)
+			n := 1
+			var closers []byte
+			for n+2 <= rem {
+				inner = append(inner, 0x0d, 0, 1, 0x0c, 0x03, 0, 0, 0, 1)
+				closers = append(closers, 0, 7) // STOP of the enclosing struct after the map field, value byte of the entry
+				n += 2
+			}
+			inner = append(inner, 0) // innermost struct (a key): empty
+			for i := len(closers) - 1; i >= 0; i-- {
+				inner = append(inner, closers[i])
+			}
+			rem = n // this shape advances two levels per step: an even remainder is one level short
 		case "map":
 			inner = append(inner, 0x0d, 0x03, 0xe7)
 			for i := 1; i < rem; i++ {
